@@ -131,6 +131,7 @@ type builder struct {
 	c     *netCase
 	nodes []geom.Point
 	used  map[[2]int]bool
+	scale float64 // every speed of the network is multiplied by this power of two (networks that are slow or fast as a whole)
 }
 
 func newBuilder(r *vproto.Rng, fam string, exact bool) *builder {
@@ -138,7 +139,7 @@ func newBuilder(r *vproto.Rng, fam string, exact bool) *builder {
 	if r.Bool() {
 		opt = "T"
 	}
-	return &builder{r: r, c: &netCase{fam: fam, exact: exact, opt: opt}, used: map[[2]int]bool{}}
+	return &builder{r: r, c: &netCase{fam: fam, exact: exact, opt: opt}, used: map[[2]int]bool{}, scale: math.Ldexp(1, r.Range(-9, 3))}
 }
 
 func (b *builder) node(p geom.Point) int { b.nodes = append(b.nodes, p); return len(b.nodes) - 1 }
@@ -163,7 +164,7 @@ func (b *builder) join(i, j int, pts []geom.Point, speed float64) bool {
 		}
 		pts = q
 	}
-	b.c.links = append(b.c.links, link{pts: pts, speed: speed})
+	b.c.links = append(b.c.links, link{pts: pts, speed: speed * b.scale})
 	return true
 }
 
@@ -177,8 +178,23 @@ func (b *builder) queries(n int, spacing float64) {
 	if len(b.nodes) == 0 {
 		return
 	}
+	// only positions that are network nodes (a grid position whose links were all deleted is not a
+	// node, and a query exactly there would be equidistant from its neighbours)
+	var linked []geom.Point
+	for k := range b.used {
+		linked = append(linked, b.nodes[k[0]], b.nodes[k[1]])
+	}
+	sort.Slice(linked, func(i, j int) bool {
+		if linked[i].X != linked[j].X {
+			return linked[i].X < linked[j].X
+		}
+		return linked[i].Y < linked[j].Y
+	})
+	if len(linked) == 0 {
+		return
+	}
 	near := func() geom.Point {
-		p := b.nodes[r.Intn(len(b.nodes))]
+		p := linked[r.Intn(len(linked))]
 		switch r.Intn(4) {
 		case 0:
 			return p
@@ -385,7 +401,7 @@ func genFloat(r *vproto.Rng, near bool) *netCase {
 			p := b.nodes[r.Intn(len(b.nodes))]
 			q := pt(p.X*(1+8e-9), p.Y*(1-8e-9))
 			far := pt(p.X+scale*3, p.Y+scale*3+float64(k)*scale)
-			b.c.links = append(b.c.links, link{pts: []geom.Point{q, far}, speed: spd()})
+			b.c.links = append(b.c.links, link{pts: []geom.Point{q, far}, speed: spd() * b.scale})
 		}
 	}
 	b.shuffleLinks()
@@ -439,9 +455,9 @@ func gen(seed uint64, tier string) {
 	out := bufio.NewWriter(os.Stdout)
 	defer out.Flush()
 	r := vproto.NewRng(seed)
-	n := 60
+	n := 150
 	if tier == "thorough" {
-		n = 1200
+		n = 1500
 	}
 	for _, c := range corpus() {
 		fmt.Fprintln(out, c)
